@@ -17,6 +17,8 @@ use vh::report::{parse_args, read_replay, Mode, Report, Tier};
 mod ownable_example;
 #[path = "/repo/examples/nft-access-control/src/contract.rs"]
 mod nft_ac_example;
+#[path = "../shared/ac_wrap.rs"]
+mod ac_wrap;
 
 #[derive(Clone, Copy, Debug, PartialEq, Eq, PartialOrd, Ord, Hash)]
 enum Who {
@@ -334,6 +336,112 @@ fn worlds(tier: Tier) -> Vec<Hs> {
     ]
 }
 
+// ---------------------------------------------------------------------------------------------
+// A contract that is its own admin: no account can stand in for the holder, so no offer can be made,
+// nothing can be accepted or renounced, and the admin stays the contract itself.
+
+#[derive(Clone, Debug, PartialEq, Eq)]
+enum SaOp {
+    Offer { new: Who, live_until: u32, by: Who },
+    Accept { by: Who },
+    Renounce { by: Who },
+    Use { by: Who },
+    Advance(u32),
+}
+
+struct SelfAdm;
+
+impl SelfAdm {
+    fn exec(&self, i: &Inst, op: &SaOp) -> bool {
+        let e = &i.e;
+        match op {
+            SaOp::Offer { new, live_until, by } => {
+                let args: SVec<Val> = (i.addr(*new).unwrap(), *live_until).into_val(e);
+                call_signed(e, &i.c, "transfer_admin_role", args, &i.signers(*by)).is_ok()
+            }
+            SaOp::Accept { by } => call_signed(e, &i.c, "accept_admin_transfer", SVec::new(e), &i.signers(*by)).is_ok(),
+            SaOp::Renounce { by } => call_signed(e, &i.c, "renounce_admin", SVec::new(e), &i.signers(*by)).is_ok(),
+            SaOp::Use { by } => call_signed(e, &i.c, "admin_restricted_function", SVec::new(e), &i.signers(*by)).is_ok(),
+            SaOp::Advance(k) => {
+                envx::advance(e, *k);
+                true
+            }
+        }
+    }
+}
+
+impl World for SelfAdm {
+    type Op = SaOp;
+    type Model = u32;
+    type Inst = Inst;
+
+    fn name(&self) -> String {
+        "self-administered-access-control".into()
+    }
+    fn fresh(&self, _seed: usize) -> (Inst, u32) {
+        let e = envx::mk_env(100);
+        let (o, a, b) = (Address::generate(&e), Address::generate(&e), Address::generate(&e));
+        for x in [&o, &a, &b] {
+            vh::auth::back(&e, x);
+        }
+        let c = e.register(ac_wrap::SelfAdmin, ());
+        (Inst { e, c, o, a, b }, 0)
+    }
+    fn ops(&self, i: &Inst, _m: &u32, _d: usize) -> Vec<SaOp> {
+        let now = envx::now(&i.e);
+        let mut v = vec![];
+        for by in SIGNERS {
+            for new in [Who::A, Who::B] {
+                for live_until in [0, now, now + 5] {
+                    v.push(SaOp::Offer { new, live_until, by });
+                }
+            }
+            v.push(SaOp::Accept { by });
+            v.push(SaOp::Renounce { by });
+            v.push(SaOp::Use { by });
+        }
+        v.push(SaOp::Advance(1));
+        v
+    }
+    fn kind(&self, op: &SaOp) -> String {
+        match op {
+            SaOp::Offer { .. } => "self-admin.offer",
+            SaOp::Accept { .. } => "self-admin.accept",
+            SaOp::Renounce { .. } => "self-admin.renounce",
+            SaOp::Use { .. } => "self-admin.holder-only-call",
+            SaOp::Advance(_) => "advance",
+        }
+        .into()
+    }
+    fn apply(&self, i: &mut Inst, op: &SaOp) {
+        self.exec(i, op);
+    }
+    fn atomic_on_refusal(&self, op: &SaOp) -> bool {
+        !matches!(op, SaOp::Advance(_))
+    }
+    fn step(&self, i: &mut Inst, m: &mut u32, op: &SaOp, cx: &mut StepCtx<Self>) -> Result<bool, Violation> {
+        let ok = self.exec(i, op);
+        if let SaOp::Advance(k) = op {
+            *m += k;
+            return Ok(true);
+        }
+        ensure!(
+            !ok,
+            "holder-keeps-control",
+            "{:?} succeeded on a contract that is its own admin: none of the signing accounts is the holder, and the holder's authorization cannot come from outside",
+            op
+        );
+        cx.stats.count("self-admin calls refused", 1);
+        let v = view(&i.e, &i.c, "get_admin", SVec::new(&i.e)).map_err(|x| Violation::new("getter", format!("{:?}", x)))?;
+        let adm: Option<Address> = Option::<Address>::try_from_val(&i.e, &v).map_err(|_| Violation::new("getter", "decode".into()))?;
+        ensure!(adm == Some(i.c.clone()), "holder", "the admin of the self-administered contract became {:?}", adm);
+        Ok(false)
+    }
+    fn key(&self, i: &Inst) -> [u8; 32] {
+        envx::storage_digest(&i.e, true)
+    }
+}
+
 fn main() {
     vh::report::run_main(real_main)
 }
@@ -356,6 +464,15 @@ fn real_main() -> i32 {
                     }
                 }
             }
+            if r.world == SelfAdm.name() {
+                match replay(&SelfAdm, r.seed, &r.history) {
+                    Ok(()) => std::process::exit(0),
+                    Err(e) => {
+                        eprintln!("{e}");
+                        std::process::exit(2)
+                    }
+                }
+            }
             eprintln!("unknown world {}", r.world);
             std::process::exit(2);
         }
@@ -366,6 +483,8 @@ fn real_main() -> i32 {
             for w in worlds(tier) {
                 explore(&w, &b, &mut rep);
             }
+            explore(&SelfAdm, &Bounds::new(3, 20), &mut rep);
+            rep.require_counter(&["self-admin calls refused"]);
             rep.require(&["offer", "cancel", "accept", "renounce", "holder-only-call"], &["offer", "cancel", "accept", "renounce", "holder-only-call"]);
             rep.finish()
         }
